@@ -547,7 +547,7 @@ def run_mesh(P, L, c):
         wit = {"case": c, "size": size, "errors": errs}
         if t == "box":
             if max(e for _, e in errs) > 2e-5:
-                P.violation("mesh-box-not-exact:%s" % mode, wit)
+                P.violation("principal-axes-absolute-eps:mesh-convergence" if abs_hit else "mesh-box-not-exact:%s" % mode, wit)
         else:
             e0, e1, e2 = [e for _, e in errs]
             P.note_max("mesh_finest_relerr", e2)
